@@ -13,6 +13,7 @@ import (
 	"io"
 	"strings"
 	"sync"
+	"time"
 
 	"google.golang.org/genproto/googleapis/api/annotations"
 	"google.golang.org/genproto/googleapis/api/serviceconfig"
@@ -27,6 +28,7 @@ import (
 	"google.golang.org/protobuf/types/descriptorpb"
 	"larking.io/larking"
 
+	"verif/internal/backend"
 	"verif/internal/mon"
 	"verif/internal/textref"
 	"verif/internal/tmplref"
@@ -432,6 +434,7 @@ type env struct {
 	regErr   map[string]string // rule ID -> registration error text
 	regPanic map[string]*mon.PanicInfo
 	srv      *wire.Server // real listener, started on first use (WebSocket cases)
+	backend  *backend.Backend
 }
 
 // server starts (once) a real loopback listener in front of the mux.
@@ -447,6 +450,10 @@ func (e *env) server() (*wire.Server, error) {
 }
 
 func (e *env) close() {
+	if e.backend != nil {
+		e.backend.Close()
+		e.backend = nil
+	}
 	if e.srv != nil {
 		e.srv.Close()
 		e.srv = nil
@@ -540,6 +547,9 @@ func buildDynamic(rules []RuleSpec, kind string) (*env, error) {
 	if err != nil {
 		return nil, err
 	}
+	if kind == muxProxied {
+		return buildProxied(fd, owners2(owners))
+	}
 	opts := append([]larking.MuxOption{larking.FilesOption(reg)}, muxOptions(kind)...)
 	if len(cfgRules) > 0 {
 		opts = append(opts, larking.ServiceConfigOption(&serviceconfig.Service{Http: &annotations.Http{Rules: cfgRules}}))
@@ -628,6 +638,42 @@ var builtinTypes = []string{"application/json", "application/octet-stream", "app
 // are REPLACED by the marked codecs (application/octet-stream keeps the
 // built-in one).
 const muxReplaced = "replaced-codecs"
+
+// muxProxied: the services run on a real loopback gRPC back-end with
+// reflection and are attached to a default mux with Mux.RegisterConn.
+const muxProxied = "proxied-backend"
+
+func owners2(o interface{}) []string { return nil }
+
+func buildProxied(fd protoreflect.FileDescriptor, _ []string) (*env, error) {
+	e := &env{rec: &recorder{}, kind: muxProxied, regErr: map[string]string{}, regPanic: map[string]*mon.PanicInfo{}}
+	var svcs []backend.Svc
+	for i := 0; i < fd.Services().Len(); i++ {
+		svcs = append(svcs, backend.Svc{SD: fd.Services().Get(i), Impl: e.rec})
+	}
+	b, err := backend.Start("transcode", true, svcs...)
+	if err != nil {
+		return nil, err
+	}
+	mux, err := larking.NewMux()
+	if err != nil {
+		b.Close()
+		return nil, err
+	}
+	ctx, cancel := context.WithTimeout(context.Background(), 20*time.Second)
+	defer cancel()
+	var rerr error
+	if pi := mon.Catch(func() { rerr = mux.RegisterConn(ctx, b.CC) }); pi != nil {
+		b.Close()
+		return nil, fmt.Errorf("RegisterConn panicked: %s", pi.Value)
+	}
+	if rerr != nil {
+		b.Close()
+		return nil, fmt.Errorf("RegisterConn: %w", rerr)
+	}
+	e.mux, e.backend = mux, b
+	return e, nil
+}
 
 // muxWithOptions: a mux built with StatsOption and pass-through unary /
 // stream interceptors (options must not change what the handler receives).
